@@ -289,8 +289,8 @@ func Property() runner.Property {
 	return runner.Property{
 		ID:           "C13",
 		Level:        "model_checking",
-		QuickBudgetS: 200, ThoroughBudgetS: 1800,
-		Rule: "configuration grid (period P=10, list latency L, result-consumption delay D, fuzz draws, timer semantics legacy/go1.23, independent shutdown time) x all interleavings of the real _lister + _ticker with a latency-modelling list client and a consumer, timers firing between any two steps in deadline order; oracle: N results are delivered (relisting never stops), at most one List in flight, each List starts >= 0.9 P after the previous result was consumed (virtual clock), shutdown completes with no goroutine left",
+		QuickBudgetS: 900, ThoroughBudgetS: 1800,
+		Rule: "configuration grid (period P=10, list latency L, result-consumption delay D, fuzz draws, timer semantics legacy/go1.23, independent shutdown time) x all interleavings of the real _lister + _ticker with a latency-modelling list client and a consumer, timers firing between any two steps in deadline order; oracle: N results are delivered (relisting never stops), at most one List in flight, each List starts >= 0.9 P after the previous result was consumed (virtual clock), shutdown completes with no goroutine left; whole-controller scenarios (period 3 s) incl. sustained event load, judged by a reachability obligation (some schedule within the bound makes 4 List calls while events arrive faster than they are applied)",
 		Assumptions: []string{
 			"virtual time: computation takes no time, timers fire in deadline order but arbitrarily late relative to computation",
 			"list client returns as soon as its context is cancelled (premise of C12/C13)",
